@@ -294,7 +294,13 @@ def run(ck):
         for jid_, res in fres.items():
             job = fby[jid_]
             r = res.get("res", {})
-            if "setup_err" in r or not any(e.get("inj") for e in res.get("trace", [])):
+            inj = [e for e in res.get("trace", []) if e.get("inj")]
+            if "setup_err" in r or not inj:
+                continue
+            if inj[0]["c"] != job["meta"]["call"]:
+                # the run took a different course than the baseline (a transient EAGAIN retried, ...): the fault
+                # did not land on the tree-changing call, so this run says nothing about it
+                stats["effect_faults_misplaced"] = stats.get("effect_faults_misplaced", 0) + 1
                 continue
             stats["effect_faults"] += 1
             added, removed, changed, after, before = diff(res.get("snap_before"), res.get("snap_after"))
@@ -326,7 +332,7 @@ def run(ck):
                 stats["t1_bad"] += 1
                 ck.violation("T1: model and implementation disagree on a single-entry operation",
                              {"job": J.describe(job), "deny": tag, "replay": rep, "real_outcome": res.get("res")}, False)
-    cov_extra = {"effect_call_fault_runs": stats.get("effect_faults", 0)}
+    cov_extra = {"effect_call_fault_runs": stats.get("effect_faults", 0), "effect_call_faults_misplaced": stats.get("effect_faults_misplaced", 0)}
     cov = {
         "evaluations": stats["ops"],
         "distinct_nontrivial": len(nontrivial),
